@@ -40,17 +40,12 @@ Theorem C16_reader_reuse : forall max history reads,
 Proof. exact reader_reuse. Qed.
 Print Assumptions C16_reader_reuse.
 
-(* ---- CBE encoder: violated; holds when no array begin is pending ---- *)
-Theorem C16_cbe_encoder_refuted : exists history es,
-  run_reused Cbe.enc_init cbe_enc_call history es <> run_fresh Cbe.enc_init cbe_enc_call es.
-Proof. exact cbe_enc_refuted. Qed.
-Print Assumptions C16_cbe_encoder_refuted.
-
-Theorem C16_cbe_encoder_partial : forall history es,
-  Forall enc_closes history ->
+(* ---- CBE encoder: holds (PrepareToEncode forgets the array state of the previous,
+   possibly aborted, document) ---- *)
+Theorem C16_cbe_encoder_reuse : forall history es,
   run_reused Cbe.enc_init cbe_enc_call history es = run_fresh Cbe.enc_init cbe_enc_call es.
-Proof. exact cbe_enc_reuse_when. Qed.
-Print Assumptions C16_cbe_encoder_partial.
+Proof. exact cbe_enc_reuse. Qed.
+Print Assumptions C16_cbe_encoder_reuse.
 
 (* ---- CTE encoder: holds for streams that begin with OnBeginDocument, OnVersion ---- *)
 Theorem C16_cte_encoder_refuted : exists history es,
@@ -86,14 +81,13 @@ Theorem C16_cte_marshaler_partial : forall history op,
 Proof. exact cte_marshaler_reuse. Qed.
 Print Assumptions C16_cte_marshaler_partial.
 
-Theorem C16_cbe_marshaler_partial : forall history op,
-  Forall enc_closes (map snd history) ->
+Theorem C16_cbe_marshaler_reuse : forall history op,
   run_reused cbe_marshaler_init cbe_marshaler_call history op = run_fresh cbe_marshaler_init cbe_marshaler_call op.
-Proof. exact cbe_marshaler_reuse_when. Qed.
-Print Assumptions C16_cbe_marshaler_partial.
+Proof. exact cbe_marshaler_reuse. Qed.
+Print Assumptions C16_cbe_marshaler_reuse.
 
-(* ---- the full property is violated (by the CBE encoder, and by the CTE encoder
-   when it is fed a stream without OnBeginDocument) ---- *)
+(* ---- the full property is violated only by the CTE encoder, when it is fed a
+   stream that does not begin with OnBeginDocument (its reset point) ---- *)
 Theorem C16_full_refuted : ~ C16_full.
 Proof. exact full_refuted. Qed.
 Print Assumptions C16_full_refuted.
@@ -108,16 +102,14 @@ Example C16_ex_rules :
   = ([EBeginDoc; EVersion 0; EMap; EArrayBegin AT_String; EArrayChunk 1 false; EArrayData [99]; EPosInt 1; EEnd; EEndDoc], None).
 Proof. vm_compute. reflexivity. Qed.
 
-Example C16_ex_cbe_closes :
-  Forall enc_closes [[EBeginDoc; EVersion 0; EArrayBegin CbeConsts.cbeAT_Uint8; EArrayChunk 1 false; EArrayData [7]; EEndDoc];
-                     [EBeginDoc; EVersion 0; EList; ENull]].
-Proof. repeat constructor. Qed.
-
+(* the pinned witness of the repaired CBE encoder defect: an aborted array begin, then a document *)
 Example C16_ex_cbe_witness :
   run_reused Cbe.enc_init cbe_enc_call [[EBeginDoc; EVersion 0; EList; EArrayBegin CbeConsts.cbeAT_Uint8]]
-             [EBeginDoc; EVersion 0; ENull; EEndDoc] = (None, [129; 0; 125; 147]) /\
-  run_fresh Cbe.enc_init cbe_enc_call [EBeginDoc; EVersion 0; ENull; EEndDoc] = (None, [129; 0; 125]).
-Proof. exact cbe_enc_refuted_bytes. Qed.
+             [EBeginDoc; EVersion 0; ENull; EEndDoc] = (None, [129; 0; 125]) /\
+  run_fresh Cbe.enc_init cbe_enc_call [EBeginDoc; EVersion 0; ENull; EEndDoc] = (None, [129; 0; 125]) /\
+  run_reused Cbe.enc_init cbe_enc_call_noreset [[EBeginDoc; EVersion 0; EList; EArrayBegin CbeConsts.cbeAT_Uint8]]
+             [EBeginDoc; EVersion 0; ENull; EEndDoc] = (None, [129; 0; 125; 147]).
+Proof. exact cbe_enc_witness. Qed.
 
 Example C16_ex_cte_header : has_header [CBegin; CVersion 0; CList; CPosInt 1; CEndContainer; CEndDoc].
 Proof. exists 0, [CList; CPosInt 1; CEndContainer; CEndDoc]. reflexivity. Qed.
